@@ -1,6 +1,193 @@
 package machine
 
-import "verif/engine/report"
+// C19, machine part: for every machine state discovered by the search, StateMachine.Clone,
+// persistence.CloneSource and persistence.FromSource must yield a value that is equal to the
+// machine (phase, index, parameters, current and staged transaction incl. signature bytes), that
+// shares no writable memory with it (reflect/unsafe walk, verif/harness/values/walk) and through
+// which no in-place change of the machine - and vice versa - can be observed (every mutation
+// point of either side is changed, the other side's snapshot compared, the change undone).
 
-// c19Hook is replaced in c19 (machine clones) once the walker exists.
-var c19Hook func(res *report.Result, v variant, w *world, hist []string)
+import (
+	"bytes"
+	"encoding/json"
+	"fmt"
+	"os"
+	"testing"
+
+	"perun.network/go-perun/channel"
+	"perun.network/go-perun/channel/persistence"
+	"perun.network/go-perun/wire/perunio"
+	"verif/engine/report"
+	"verif/harness/values/walk"
+)
+
+// c19Hook is installed by TestCheck as the state hook when VERIF_PROP=C19.
+var c19Hook = c19Check
+
+func encHex(e perunio.Encoder) (s string) {
+	defer func() {
+		if r := recover(); r != nil {
+			s = fmt.Sprintf("PANIC %v", r)
+		}
+	}()
+	var b bytes.Buffer
+	if err := e.Encode(&b); err != nil {
+		return "ERR " + err.Error()
+	}
+	return fmt.Sprintf("%x", b.Bytes())
+}
+
+// view is what the channel.Source interface shows of a machine or a persistence snapshot.
+func view(s channel.Source) (out string) {
+	defer func() {
+		if r := recover(); r != nil {
+			out = fmt.Sprintf("VIEW-PANIC %v", r)
+		}
+	}()
+	p := s.Params()
+	return fmt.Sprintf("phase=%d idx=%d id=%x params=%s pid=%x cur=%s cursigs=%s stg=%s stgsigs=%s", s.Phase(), s.Idx(), s.ID(), encHex(p), p.ID(),
+		encHex(s.CurrentTX()), sigsString(s.CurrentTX()), encHex(s.StagingTX()), sigsString(s.StagingTX()))
+}
+
+func snapOf(root interface{}, s channel.Source) func() string {
+	return func() (out string) {
+		defer func() {
+			if r := recover(); r != nil {
+				out = fmt.Sprintf("SNAP-PANIC %v", r)
+			}
+		}()
+		return walk.Dump(root, false) + " |" + view(s)
+	}
+}
+
+func c19Check(res *report.Result, v variant, w *world, hist []string) {
+	rp := replay{"machine", v, hist, ""}
+	where := fmt.Sprintf("[%s] phase %v after %v", v.Name, w.m.Phase(), hist)
+	viol := func(site, clause, field, detail string) {
+		res.Violate("C19", fmt.Sprintf("C19:%s:%s/%s", clause, site, field), where+": "+detail, rp)
+	}
+	pair := func(site string, orig *channel.StateMachine, clone interface{}, cs channel.Source, sameType bool) {
+		res.Count("c19_clone_checks", 1)
+		// (1) equal
+		if a, b := view(orig), view(cs); a != b {
+			viol(site, "clone-not-equal", "source-view", "phase/index/parameters/transactions of the copy differ from the machine: "+diffAt(a, b))
+		}
+		if sameType {
+			if a, b := walk.Dump(orig, true), walk.Dump(clone, true); a != b {
+				viol(site, "clone-not-equal", "fields", "canonical dumps (all exported and unexported fields) differ: "+diffAt(a, b))
+			}
+		}
+		// (2) + (3)
+		fs, st := walk.CheckDisjoint(orig, clone, snapOf(orig, orig), snapOf(clone, cs))
+		for _, f := range fs {
+			viol(site, f.Clause, f.Site, f.Detail)
+		}
+		res.Count("c19_mutation_checks", int64(st.Locs))
+		res.Count("c19_mutation_checks_effective", int64(st.Effective))
+		res.Count("c19_regions_compared", int64(st.RegionsA+st.RegionsB))
+		for k, n := range st.Skipped {
+			res.Count("c19_shared_by_documentation: "+k, int64(n))
+		}
+		for s := range st.EffectiveSites {
+			res.Seen("c19_mutated_sites", site+s)
+		}
+	}
+	guard := func(site string, f func()) {
+		defer func() {
+			if r := recover(); r != nil {
+				if s, ok := r.(string); ok && len(s) > 5 && s[:5] == "walk." {
+					panic(r) // engine error, not an observation
+				}
+				viol(site, "clone-panic", "Clone", fmt.Sprintf("panic: %v", r))
+			}
+		}()
+		f()
+	}
+	guard("machine", func() { c := w.m.Clone(); pair("machine", w.m, c, c, true) })
+	guard("CloneSource", func() { s := persistence.CloneSource(w.m); pair("CloneSource", w.m, s, s, false) })
+	guard("FromSource", func() { s := persistence.FromSource(w.m, nil, nil); pair("FromSource", w.m, s, s, false) })
+	res.Count("c19_machine_states", 1)
+}
+
+func diffAt(a, b string) string {
+	i := 0
+	for i < len(a) && i < len(b) && a[i] == b[i] {
+		i++
+	}
+	lo := i - 50
+	if lo < 0 {
+		lo = 0
+	}
+	cut := func(s string) string {
+		if lo > len(s) {
+			return ""
+		}
+		hi := i + 50
+		if hi > len(s) {
+			hi = len(s)
+		}
+		return s[lo:hi]
+	}
+	return fmt.Sprintf("at offset %d: ...%s... vs ...%s...", i, cut(a), cut(b))
+}
+
+// TestMain only intercepts replays of C19 machine findings (replay value with "op": ""): the
+// history is re-run on a fresh machine and the hook applied to the state it ends in. Everything
+// else goes to the ordinary TestCheck.
+func TestMain(m *testing.M) {
+	if p := report.ReplayFile(); p != "" && os.Getenv("VERIF_PROP") == "C19" {
+		os.Exit(c19Replay(p))
+	}
+	os.Exit(m.Run())
+}
+
+func c19Replay(path string) int {
+	b, err := os.ReadFile(path)
+	if err != nil {
+		fmt.Println(err)
+		return 2
+	}
+	var f struct {
+		Replay replay `json:"replay"`
+	}
+	if err := json.Unmarshal(b, &f); err != nil {
+		fmt.Println(err)
+		return 2
+	}
+	rp := f.Replay
+	res := report.New("C19", "machine")
+	all := ops(rp.Variant)
+	byName := map[string]*op{}
+	for i := range all {
+		byName[all[i].name] = &all[i]
+	}
+	w := newWorld(rp.Variant)
+	steps := append([]string{}, rp.History...)
+	if rp.Op != "" {
+		steps = append(steps, rp.Op)
+	}
+	for _, n := range steps {
+		o := byName[n]
+		if o == nil {
+			fmt.Printf("unknown op %q\n", n)
+			return 2
+		}
+		if vi := w.apply(o); vi != nil {
+			fmt.Printf("  history no longer replays: %s %s: %s\n", vi.prop, vi.clause, vi.detail)
+			return 2
+		}
+		fmt.Printf("  %-28s -> phase=%v cur=%s stg=%s\n", n, w.m.Phase(), w.sigStatus(w.m.CurrentTX()), w.sigStatus(w.m.StagingTX()))
+	}
+	c19Check(res, rp.Variant, w, rp.History)
+	for _, v := range res.Violations {
+		fmt.Printf("  VERDICT %s: %s\n", v.Signature, v.Detail)
+	}
+	if len(res.Violations) == 0 {
+		fmt.Println("  VERDICT none: the clone checks hold in this state")
+	}
+	if err := res.Write(); err != nil {
+		fmt.Println(err)
+		return 2
+	}
+	return 0
+}
